@@ -102,6 +102,14 @@ func New(args *config.MigrationControllerArgs, options Options) (Arbitrator, err
 // AddPodMigrationJob adds a PodMigrationJob waiting to be arbitrated to Arbitrator.
 // It is safe to be called concurrently by multiple goroutines.
 func (a *arbitratorImpl) AddPodMigrationJob(job *v1alpha1.PodMigrationJob) {
+	// a job which has already passed the arbitration, e.g. before a restart, still holds its place. Record it at once,
+	// otherwise the jobs arbitrated ahead of it would not see it and could exceed the limits.
+	if job.Annotations[AnnotationPassedArbitration] == "true" {
+		if phase := job.Status.Phase; phase == "" || phase == v1alpha1.PodMigrationJobPending || phase == v1alpha1.PodMigrationJobRunning {
+			a.filter.markJobPassedArbitration(job.UID)
+		}
+		return
+	}
 	a.mu.Lock()
 	defer a.mu.Unlock()
 	a.waitingCollection[job.UID] = job.DeepCopy()
